@@ -62,7 +62,7 @@ def _so3_to_angle_hf0(x00, x10, x02, x12, x20, x21, x22, zero_eps):
     x00, x10, x02, x12, x20, x21, x22 = [x.real for x in (x00, x10, x02, x12, x20, x21, x22)] #drop imag part
     sb = np.hypot(x20, x21) #sin(beta)>=0
     beta = np.arctan2(sb, x22) #(0,pi)
-    ind0 = sb<zero_eps #gimbal lock, only alpha+gamma (beta=0) or alpha-gamma (beta=pi) is determined, put it into alpha
+    ind0 = sb<=zero_eps #(<= so that zero_eps=0 still catches an exact pole) gimbal lock, only alpha+gamma (beta=0) or alpha-gamma (beta=pi) is determined, put it into alpha
     tmp0 = np.sign(x22)
     alpha = np.where(ind0, np.arctan2(tmp0*x10, tmp0*x00), np.arctan2(x12, x02))
     gamma = np.where(ind0, 0, np.arctan2(x21, -x20))
